@@ -266,6 +266,61 @@ def typedetect_corpus():
     return ms
 
 
+def valence_corpus(tier):
+    """largest face / cell valence at an integer-width boundary: the valence width is chosen from the largest
+    VALENCE VALUE of a chunk (255 fits one byte, 256 does not), unlike the handle widths, which follow counts"""
+    ms = []
+    def ring(m, n):
+        vs = [m.v(i % 16, i // 16, 0.5 * (i % 3)) for i in range(n)]
+        es = [m.e(vs[i], vs[(i + 1) % n]) for i in range(n)]
+        return vs, es
+    sizes = [255, 256, 257] + ([65535, 65536, 65537] if tier == 'thorough' else [])
+    for n in sizes:
+        m = Mesh('fval%d' % n, tcok=True)
+        vs, es = ring(m, n)
+        m.f([2 * e for e in es]); m.f([2 * es[0], 2 * es[1], 2 * m.e(vs[2], vs[0])])      # one n-gon, one triangle
+        ms.append(m)
+    m = Mesh('fval256u', tcok=True)                      # every face a 256-gon: uniform, but not expressible as a fixed valence
+    vs, es = ring(m, 256); m.f([2 * e for e in es]); m.f([2 * e + 1 for e in reversed(es)]); ms.append(m)
+    for n in [255, 256, 257]:
+        m = Mesh('cval%d' % n)
+        vs = [m.v(i, 0, 0) for i in range(131)]
+        es = [m.e(vs[i], vs[i + 1]) for i in range(130)]
+        for i in range(129): m.f([2 * es[i], 2 * es[i + 1]])
+        m.c(list(range(n))); m.c([0, 3, 4])             # a cell of n halffaces and a small one (no topology check on construction)
+        m.prop('C', 'int32', b'cv', I32(-1), [I32(n), I32(3)])
+        ms.append(m)
+    m = Mesh('cval256u'); vs = [m.v(i, 0, 0) for i in range(131)]; es = [m.e(vs[i], vs[i + 1]) for i in range(130)]
+    for i in range(129): m.f([2 * es[i], 2 * es[i + 1]])
+    m.c(list(range(256))); ms.append(m)
+    return ms
+
+
+def emptykind_corpus():
+    """persistent properties on entity kinds that have no entities, followed in directory order by a non-empty
+    property (kinds are nested, so the follower is a mesh property): empty mesh, vertices only, edges only, surface"""
+    ms = []
+    def props(m, empty_kinds, full_kinds):
+        types = ['int32', 'bool', 'string', 'double', 'Vec3d', 'uint8']
+        for i, k in enumerate(empty_kinds):
+            d, f = TYPE_SAMPLES[types[i % len(types)]]
+            m.prop(k, types[i % len(types)], ('zero_%s' % k).encode(), d, [])
+        for i, k in enumerate(full_kinds):
+            t = types[(i + 2) % len(types)]
+            d, f = TYPE_SAMPLES[t]
+            m.prop(k, t, ('full_%s' % k).encode(), d, [f(j + 1) for j in range(m.count(k))])
+        d, f = TYPE_SAMPLES['int32']
+        m.prop('M', 'int32', b'after_1', d, [I32(41)]); m.prop('M', 'string', b'after_2', b'dflt', [b'last'])
+    m = Mesh('pz_empty', tcok=True); props(m, ['V', 'E', 'HE', 'F', 'HF', 'C'], []); ms.append(m)
+    m = Mesh('pz_verts', tcok=True); [m.v(i, 1, 2) for i in range(3)]; props(m, ['E', 'HE', 'F', 'HF', 'C'], ['V']); ms.append(m)
+    m = Mesh('pz_edges', tcok=True); [m.v(i, 1, 2) for i in range(3)]; m.e(0, 1); m.e(1, 2); props(m, ['F', 'HF', 'C'], ['V', 'E', 'HE']); ms.append(m)
+    m = Mesh('pz_surface', tcok=True); [m.v(i, i * i, 2) for i in range(3)]; m.e(0, 1); m.e(1, 2); m.e(2, 0); m.f([0, 2, 4])
+    props(m, ['C'], ['V', 'E', 'HE', 'F', 'HF']); ms.append(m)
+    for k in ['V', 'E', 'HE', 'F', 'HF', 'C']:          # one empty kind at a time on the empty mesh
+        m = Mesh('pz_only_%s' % k, tcok=True); props(m, [k], []); ms.append(m)
+    return ms
+
+
 def width_corpus(tier):
     """index-width boundaries per referencing relation: the entity count is still below a boundary while
     the half-entity handles stored one level up are beyond it, and both beyond it; polyhedral and
@@ -626,8 +681,8 @@ def configs_for(tier):
 
 
 def check_c06(ctx, cov):
-    ms = corpus(ctx.tier, ctx.seed) + big_corpus(ctx.tier) + width_corpus(ctx.tier) + typedetect_corpus()
-    small = [m for m in ms if not m.name.startswith('soup') and m.nf < 1000 and (ctx.tier == 'thorough' or not m.name.startswith('td_'))]
+    ms = corpus(ctx.tier, ctx.seed) + big_corpus(ctx.tier) + width_corpus(ctx.tier) + typedetect_corpus() + valence_corpus(ctx.tier) + emptykind_corpus()
+    small = [m for m in ms if not m.name.startswith('soup') and m.nf < 1000 and (ctx.tier == 'thorough' or not m.name.startswith(('td_', 'pz_only', 'cval25', 'fval25')))]
     pend = pending_corpus()
     defs = meshdefs_of(ms + pend)
     # (a) writer -> description, for both formats; (d) pending deletions
@@ -666,18 +721,25 @@ def check_c06(ctx, cov):
     cp = os.path.join(ctx.work, 'corpus-writes.ndjson')
     open(cp, 'w').write('\n'.join(src) + '\n')
     # the generator is single threaded: one TLC per slice of the corpus, in parallel
-    nsl = min(8, NPAR, len(src))
+    # pairs of choices (thorough) only for the files of the tiny meshes; the larger ones get all single choices
+    tiny = [i for i in range(len(src)) if len(src[i]) < 12_000]
+    groups_idx = ([(tiny, True), ([i for i in range(len(src)) if i not in set(tiny)], False)] if ctx.tier == 'thorough'
+                  else [(list(range(len(src))), False)])
+    slices = []
+    for idxs, pairs in groups_idx:
+        nsl = max(1, min(6, NPAR, len(idxs)))
+        slices += [(idxs[k::nsl], pairs) for k in range(nsl) if idxs[k::nsl]]
     def gen_slice(k):
-        idx = list(range(k, len(src), nsl))
+        idx, pairs = slices[k]
         sp = os.path.join(ctx.work, 'corpus-writes-%d.ndjson' % k)
         open(sp, 'w').write('\n'.join(src[i] for i in idx) + '\n')
-        gk = run_gen('enc', sp, ctx.work, pairs=(ctx.tier == 'thorough'))
+        gk = run_gen('enc', sp, ctx.work, pairs=pairs)
         for e in gk['enc']:
             e['src'] = idx[e['src'] - 1] + 1
         return gk
     t0g = time.time()
-    with ThreadPoolExecutor(max_workers=nsl) as ex:
-        gs = list(ex.map(gen_slice, range(nsl)))
+    with ThreadPoolExecutor(max_workers=min(NPAR, len(slices))) as ex:
+        gs = list(ex.map(gen_slice, range(len(slices))))
     g = dict(enc=[e for gk in gs for e in gk['enc']], bad=[b for gk in gs for b in gk['bad']], wall=time.time() - t0g)
     cov['encodings_generated'] = len(g['enc'])
     cov['gen_enc_wall_s'] = round(g['wall'], 1)
